@@ -144,6 +144,12 @@ func (c *Ctx) intrinsic(fn *ssa.Function, name string, args []Value) (Value, boo
 			bs[i] = c.newInput(fmt.Sprintf("%s_%d", nm, i), c.intSort(8), 8, false)
 		}
 		return &StrVal{B: bs}, true
+	case "verifTruthOf":
+		nm := c.strArg(args[0])
+		if v, ok := c.inputs[nm]; ok {
+			return v, true
+		}
+		c.unsupported("verifTruthOf(%q): no such input on this path", nm)
 	case "verifBound":
 		// verifBound(quick, thorough int) int
 		return args[c.Ex.Tier], true
@@ -1072,6 +1078,38 @@ func registerLibModels() {
 	m["unicode/utf8.DecodeRune"] = func(c *Ctx, fn *ssa.Function, a []Value) Value {
 		r, n := c.decodeRune(c.sliceBytes(a[0].(SliceVal)))
 		return TupleVal{r, c.goInt(int64(n))}
+	}
+	m["reflect.ValueOf"] = func(c *Ctx, fn *ssa.Function, a []Value) Value {
+		return &OpaqueVal{Tag: "reflect.Value", X: a[0]}
+	}
+	m["(reflect.Value).Pointer"] = func(c *Ctx, fn *ssa.Function, a []Value) Value {
+		ov, ok := a[0].(*OpaqueVal)
+		if !ok {
+			c.unsupported("reflect.Value.Pointer on %T", a[0])
+		}
+		v := ov.X
+		if i, isI := v.(Iface); isI {
+			v = i.V
+		}
+		switch x := v.(type) {
+		case *MapVal:
+			if x == nil {
+				return c.mkInt64(0, 64, false)
+			}
+			return c.mkInt64(int64(x.id)*4096, 64, false)
+		case SliceVal:
+			if x.Nil {
+				return c.mkInt64(0, 64, false)
+			}
+			return c.mkInt64(int64(x.Base.C.id)*4096+int64(x.Off), 64, false)
+		case Ptr:
+			if x.IsNil() {
+				return c.mkInt64(0, 64, false)
+			}
+			return c.mkInt64(int64(x.C.id)*4096, 64, false)
+		}
+		c.unsupported("reflect.Value.Pointer on %T", v)
+		return nil
 	}
 	m["strconv.ParseInt"] = func(c *Ctx, fn *ssa.Function, a []Value) Value {
 		s := a[0].(*StrVal)
